@@ -145,6 +145,7 @@ theorem ifdLoop_np (tb : Tables) (fuel : Nat) (r : R) : NP (ifdLoop tb fuel r) :
         split
         · simp only [bind]
           refine np_bind' _ _ ?_ (fun r3 => ih _)
+          unfold ifdChild
           split
           · split
             · exact np_bind' _ _ (readIfdHeader_np tb _ _) (fun _ => rfl)
